@@ -9,7 +9,10 @@
 (*   5: 11,13,15        clip 10..16  centres BETWEEN native points                                             *)
 (*   6: 25,27,29        clip 24..30  between native points, same length, another position                      *)
 (*   7: 10,12,14 with cutoff_grid = False: the full grid although a grid is passed                             *)
+(*   8: 60,62,64        no native point in reach: the evaluation is REFUSED; whatever entry point was called, the  *)
+(*                      object must serve the next request as if nothing had happened                           *)
 (*   0: no grid passed (the full native grid)                                                                  *)
+(* Every request is evaluated through every entry point of HEntries (model, model_contrib, model_full_contrib). *)
 (* Alphabet "G": the same classes on a constant-resolution-like native grid (gaps 1,1,..,2,..,3,..,6).         *)
 EXTENDS GridHistory
 CONSTANTS Alphabet
@@ -22,7 +25,8 @@ WinsU == << [oc |-> <<10, 12, 14>>, cut |-> TRUE],
             [oc |-> <<10, 14>>, cut |-> TRUE],
             [oc |-> <<11, 13, 15>>, cut |-> TRUE],
             [oc |-> <<25, 27, 29>>, cut |-> TRUE],
-            [oc |-> <<10, 12, 14>>, cut |-> FALSE] >>
+            [oc |-> <<10, 12, 14>>, cut |-> FALSE],
+            [oc |-> <<60, 62, 64>>, cut |-> TRUE] >>
 NatG == <<10, 11, 12, 13, 14, 16, 18, 20, 22, 24, 27, 30, 33, 36, 40, 44, 48, 53, 58, 64>>
 MolG == <<9, 15, 25, 38, 52, 70>>
 WinsG == << [oc |-> <<12, 13, 14>>, cut |-> TRUE],
@@ -31,15 +35,17 @@ WinsG == << [oc |-> <<12, 13, 14>>, cut |-> TRUE],
             [oc |-> <<12, 14>>, cut |-> TRUE],
             [oc |-> <<15, 17, 19>>, cut |-> TRUE],
             [oc |-> <<42, 46, 50>>, cut |-> TRUE],
-            [oc |-> <<12, 13, 14>>, cut |-> FALSE] >>
+            [oc |-> <<12, 13, 14>>, cut |-> FALSE],
+            [oc |-> <<90, 93, 96>>, cut |-> TRUE] >>
 MCNat  == IF Alphabet = "U" THEN NatU ELSE NatG
 MCMol  == IF Alphabet = "U" THEN MolU ELSE MolG
 MCWins == IF Alphabet = "U" THEN WinsU ELSE WinsG
 
 \* pairs of requests an under-keyed memo cannot tell apart although they compute different points
-XSameSize == {p \in HWinIds \X HWinIds : HClip(p[1]) # HClip(p[2]) /\ Len(HClip(p[1])) = Len(HClip(p[2]))}
-XSameFirst == {p \in HWinIds \X HWinIds : HClip(p[1]) # HClip(p[2]) /\ HClip(p[1])[1] = HClip(p[2])[1]}
-XSameEnds == {p \in HWinIds \X HWinIds : /\ p[1] # 0 /\ p[2] # 0 /\ HClip(p[1]) # HClip(p[2])
+XServed == {w \in HWinIds : ~HFails(w)}
+XSameSize == {p \in XServed \X XServed : HClip(p[1]) # HClip(p[2]) /\ Len(HClip(p[1])) = Len(HClip(p[2]))}
+XSameFirst == {p \in XServed \X XServed : HClip(p[1]) # HClip(p[2]) /\ HClip(p[1])[1] = HClip(p[2])[1]}
+XSameEnds == {p \in XServed \X XServed : /\ p[1] # 0 /\ p[2] # 0 /\ HClip(p[1]) # HClip(p[2])
                                           /\ HReq(p[1])[1] = HReq(p[2])[1]
                                           /\ HReq(p[1])[Len(HReq(p[1]))] = HReq(p[2])[Len(HReq(p[2]))]}
 
